@@ -380,6 +380,9 @@ def decide(stats, facts, negated_claim, timeout_ms=None, lemmas=True, want_model
     stats.queries += 1
     if z3.is_false(neg):
         stats.unsat += 1
+        if not stats.twins_ok and stats.twin_attempts < 30:
+            # the claim holds syntactically (e.g. both engines produced the same term): the path still witnesses reachability
+            _reachability_twin(stats, fm, lemmas)
         return 'unsat', None
     stats.nontrivial += 1
     s = z3.Solver()
